@@ -13,27 +13,36 @@ Proved for every payload, every split into Write calls (no bound on sizes):
   * `xerial_unframed_single`    unframed mode emits exactly one block: `enc payload`
   * `touch_exclusive`, `put_before_reset_counterexample`, `gen_close_order`   Put is the last touch (model + extracted
                                 statement order of every Close method)
+  * `cfg_respected`, `shared_pool_counterexample`, `gen_pool_keys`   the pool key includes the configuration a pooled
+                                object keeps (model + extracted pool ownership per NewReader/NewWriter)
   * `pool_inv`, `pool_no_sharing`, `close_idempotent`   pool protocol over all op sequences incl. repeated Close;
                                 `double_close_counterexample` for a Close that keeps its object (seeded C16-m2)
   * `reset_fresh`               a recycled reader/writer starts from the same state as a new one, whatever it
                                 processed before (also after a stream that ended in an error)
+  * `reads_reference_streams_any_blocks`  the same without the non-emptiness of the blocks (empty blocks are skipped)
   * `reads_reference_streams`   the READER model, for ANY Read buffer sizes (each ≥ 1; the consumer reads until
                                 EOF): a Spec-framed stream of encoded non-empty blocks is returned as their
                                 concatenation; an unframed block (not starting with the magic) as its payload
   * `xerial_roundtrip`          writer → reader: for every non-empty payload, every split into Write calls, every
                                 sequence of Read buffer sizes, framed and unframed: the payload comes back
+  * `writeTo_reference_streams` (io.Copy from the reader; empty blocks allowed), `readFrom_conserves` (io.Copy into the
+    writer — `xerialWriter.ReadFrom` — for every source behaviour)
   * `source_independent`, `reads_reference_streams_any_source`, `reads_reference_unframed_any_source`,
     `xerial_roundtrip_any_source`  the same for EVERY behaviour of the underlying io.Reader (short reads, (0, nil),
                                 data together with io.EOF); `data_with_eof_counterexample` (seeded C16-m3)
   (the reader model is also compared with the real `xerialReader` on Read-size sequences: ops `xr`, `rt`, `in`)
-gzip / lz4 / zstd: the wrappers only pool and Reset library objects — correspondence only.
+gzip / lz4 / zstd: the wrappers only pool and Reset library objects: `lib_history_independent` (conditional on the
+libraries' Reset contract) + the pool theorems above; the contract itself is sampled by correspondence (`hist`, `cfg`, `ovl`).
 -/
 import KafkaVerif.Lemmas.Xerial
 import KafkaVerif.Lemmas.Pool
 import KafkaVerif.Lemmas.XerialReader
 import KafkaVerif.Lemmas.XerialIO
+import KafkaVerif.Lemmas.XerialCut
 import KafkaVerif.Gen.RecordConsts
 import KafkaVerif.Gen.CodecClose
+import KafkaVerif.Gen.CodecPools
+import KafkaVerif.Gen.XerialReset
 
 namespace KV.Props.C16
 open KV KV.RW KV.Model.Xerial KV.Spec.Xerial
@@ -191,6 +200,85 @@ theorem data_with_eof_counterexample :
     (readToEOF 5 ⟨[1, 2, 3], [⟨3, true⟩]⟩ 32768 []).1 = some [1, 2, 3] ∧
     (readToEOFLate 5 ⟨[1, 2, 3], [⟨2, false⟩, ⟨5, true⟩]⟩ 32768 []).1 = some [1, 2] := by decide
 
+/-- `(*xerialReader).WriteTo` (the io.Copy path): every framed reference stream — blocks may be EMPTY — is written
+out as the concatenation of its blocks -/
+theorem writeTo_reference_streams (c : Codec) (hg : Good c) (blocks : List Bytes)
+    (hsm : ∀ b ∈ blocks, (c.enc b).length < 256 ^ 4) :
+    writeTo c (blocks.length + 1) (newReader (frame (blocks.map c.enc))) = some blocks.flatten := by
+  have hrep : Rep c (newReader (frame (blocks.map c.enc))) [] blocks :=
+    Rep.startFramed _ _ rfl rfl (by simp [newReader])
+  have := writeTo_rep c hg blocks (blocks.length + 1) _ [] (by omega) hsm hrep
+  simpa using this
+
+open Model.Source in
+/-- `(*xerialWriter).ReadFrom` (the io.Copy path of the record encoder for keys and values), framed: whatever the
+source's behaviour (short reads, (0, nil), data with io.EOF), after ReadFrom and Close the flushed blocks concatenate
+to what was written before followed by everything the source held; blocks stay non-empty and ≤ 32 KiB and the output
+stays the Spec framing (the invariant `WInv`) -/
+theorem readFrom_conserves (c : Codec) (chunks : List Bytes) (s : Src) :
+    let w := close c (readFromLoop c (fuelFor s) (writeAll c (newWriter true) chunks) s).1
+    w.blocks.flatten = chunks.flatten ++ s.data ∧ WInv c w ∧
+    (∀ b ∈ w.blocks, b ≠ [] ∧ b.length ≤ 32768) := by
+  have h0 := writeAll_framed c chunks (newWriter true) rfl (winv_new c true) (by decide)
+  have h1 := readFromLoop_spec c (fuelFor s) _ s h0.2.1 h0.1 h0.2.2.1 (Nat.le_refl _)
+  simp only at h1
+  have hc := flush_content c (readFromLoop c (fuelFor s) (writeAll c (newWriter true) chunks) s).1
+  have hi := flush_input c (readFromLoop c (fuelFor s) (writeAll c (newWriter true) chunks) s).1
+  have hinv : WInv c (flush c (readFromLoop c (fuelFor s) (writeAll c (newWriter true) chunks) s).1) :=
+    flush_inv c _ h1.1 (fun _ => by have := h1.2.2.1; simp only [slack, blockCap] at *; omega)
+      (fun hf => by rw [h1.2.1] at hf; exact absurd hf (by decide))
+  have hfr : (flush c (readFromLoop c (fuelFor s) (writeAll c (newWriter true) chunks) s).1).framed = true := by
+    rw [flush_framed]; exact h1.2.1
+  refine ⟨?_, hinv, fun b hb => ⟨hinv.nonempty b hb, hinv.bounded hfr b hb⟩⟩
+  have : content (flush c (readFromLoop c (fuelFor s) (writeAll c (newWriter true) chunks) s).1)
+      = chunks.flatten ++ s.data := by
+    rw [hc, h1.2.2.2, h0.2.2.2]; simp [content, newWriter]
+  simpa [close, content, hi] using this
+
+/-- READER, framed reference streams with ANY blocks — also empty ones, which `Read` skips by going on to the next
+chunk — and any buffer sizes ≥ 1 -/
+theorem reads_reference_streams_any_blocks (c : Codec) (hg : Good c) (blocks : List Bytes)
+    (hsm : ∀ b ∈ blocks, (c.enc b).length < 256 ^ 4)
+    (ks : List Nat) (hks : ∀ k ∈ ks, 1 ≤ k) (hlen : blocks.flatten.length < ks.length) :
+    readAllWith c (newReader (frame (blocks.map c.enc))) ks = some blocks.flatten := by
+  have hrep : Rep c (newReader (frame (blocks.map c.enc))) [] blocks :=
+    Rep.startFramed _ _ rfl rfl (by simp [newReader])
+  have := readAllWith_rep_any c hg ks _ [] blocks hks (by simpa using hlen) hsm hrep
+  simpa using this
+
+/-- **streams that end early** (the source is cut, or fails, anywhere after the 16-byte header): whatever buffer sizes
+the consumer uses, everything the reader hands out before it reports the end or an error is a PREFIX of the payload —
+never other data.  (`readAllOut`: the bytes delivered until the first non-data answer.)  Proved by simulation
+(`Lemmas/XerialCut`): on `rest` and on `rest ++ t` the framed reader makes the same data steps. -/
+theorem truncated_stream_prefix (c : Codec) (hg : Good c) (blocks : List Bytes)
+    (hsm : ∀ b ∈ blocks, (c.enc b).length < 256 ^ 4)
+    (ks : List Nat) (hks : ∀ k ∈ ks, 1 ≤ k) (hlen : blocks.flatten.length < ks.length) (n : Nat) (hn : 16 ≤ n) :
+    readAllOut c (newReader ((frame (blocks.map c.enc)).take n)) ks <+: blocks.flatten := by
+  have hl : 16 ≤ (frame (blocks.map c.enc)).length := by
+    simp only [frame, List.length_append]
+    have : Spec.Xerial.header.length = 16 := by decide
+    omega
+  have hfr : Framed (newReader ((frame (blocks.map c.enc)).take n)) := by
+    refine .inl ⟨rfl, ?_, ?_⟩
+    · simp only [newReader, List.length_take]; omega
+    · simp only [newReader, List.take_take]
+      rw [show min 8 n = 8 from by omega]
+      exact header_take8 _
+  have hp := readAllOut_prefix c ((frame (blocks.map c.enc)).drop n) ks _ hfr
+  have he : ext (newReader ((frame (blocks.map c.enc)).take n)) ((frame (blocks.map c.enc)).drop n) =
+      newReader (frame (blocks.map c.enc)) := by
+    simp only [ext, newReader, List.take_append_drop]
+  rw [he, readAllOut_of_readAllWith c ks _ _ (reads_reference_streams_any_blocks c hg blocks hsm ks hks hlen)] at hp
+  exact hp
+
+open Model.Source in
+/-- the same for EVERY behaviour of the underlying io.Reader while it delivers the `n` bytes it has -/
+theorem truncated_stream_prefix_any_source (c : Codec) (hg : Good c) (blocks : List Bytes)
+    (hsm : ∀ b ∈ blocks, (c.enc b).length < 256 ^ 4) (script : List Ans)
+    (ks : List Nat) (hks : ∀ k ∈ ks, 1 ≤ k) (hlen : blocks.flatten.length < ks.length) (n : Nat) (hn : 16 ≤ n) :
+    readAllOutIO c ⟨newReader ((frame (blocks.map c.enc)).take n), script⟩ ks <+: blocks.flatten := by
+  rw [readAllOutIO_refines]; exact truncated_stream_prefix c hg blocks hsm ks hks hlen n hn
+
 /-- FULL round trip, framed: every non-empty payload, every split into Write calls, every sequence of Read
 buffer sizes: what the reader returns is the payload -/
 theorem xerial_roundtrip (c : Codec) (hg : Good c) (henc : ∀ b, b.length ≤ 32768 → (c.enc b).length < 256 ^ 4)
@@ -245,6 +333,20 @@ theorem xerial_roundtrip_unframed (c : Codec) (hg : Good c) (chunks : List Bytes
 the recycled object was left in (mid-stream, after an error, after EOF), Reset gives the state of a new one. -/
 theorem reset_fresh (s : Bytes) (framed : Bool) (r : Reader) (w : Writer) :
     resetReader s r = newReader s ∧ resetWriter framed w = newWriter framed := ⟨rfl, rfl⟩
+
+/-- the premise of `reset_fresh` — the model's `resetReader` / `resetWriter` forget the WHOLE previous state — read off the
+source on every run (go/ast, `go/extract resetfields` → Gen/XerialReset): every field of `xerialReader` / `xerialWriter`
+that some method may change (assigned, or handed to a call as a slice) is assigned by `Reset`, or by `Codec.NewReader` /
+`NewWriter` after the pool Get on every path (`framed`, `encode`: the pool is shared by all snappy Codec values), or is
+scratch that is always filled right before it is used (the writer's `header`).  A Reset that stops clearing a field,
+or a new mutable field that Reset does not know, breaks this theorem. -/
+theorem gen_reset_complete :
+    (∀ f ∈ Gen.XerialReset.readerMutated, f ∈ Gen.XerialReset.readerReset ∨ f ∈ Gen.XerialReset.readerCtor ∨
+      f ∈ Gen.XerialReset.readerScratch) ∧
+    (∀ f ∈ Gen.XerialReset.writerMutated, f ∈ Gen.XerialReset.writerReset ∨ f ∈ Gen.XerialReset.writerCtor ∨
+      f ∈ Gen.XerialReset.writerScratch) ∧
+    (∀ f ∈ Gen.XerialReset.readerMutated, f ∈ Gen.XerialReset.readerFields) ∧
+    (∀ f ∈ Gen.XerialReset.writerMutated, f ∈ Gen.XerialReset.writerFields) := by decide
 
 /-- the model's block capacity and flush threshold are the constants in compress/snappy/xerial.go now
 (regenerated by `go/extract records` on every run) -/
@@ -306,6 +408,46 @@ what makes `close` an atomic, idempotent event of the protocol model above -/
 theorem gen_close_order :
     Gen.CodecClose.closeFacts.length = 8 ∧
     Gen.CodecClose.closeFacts.all (fun f => f.2.1 && f.2.2.1 && f.2.2.2) = true := by decide
+
+open Model.CfgPool in
+/-- pools and configuration: when every pool either belongs to one configuration (the pool key includes the options a
+pooled object keeps) or its users re-apply their options after Get, then after EVERY sequence of acquisitions (from
+the pool or fresh) and Closes, every live wrapper works with an object configured exactly as requested — whatever
+other configurations of the same codec kind were used before -/
+theorem cfg_respected (rp : Nat → Bool) (es : List Ev) (s : St) (hp : policy rp es = true)
+    (h : run Model.CfgPool.init es = some s) : ∀ hd ∈ s.handles, hd.obj.baked = hd.cfg :=
+  fun hd hm => ((Model.CfgPool.inv_run rp es _ s hp (Model.CfgPool.inv_init rp) h).1 hd hm).1
+
+open Model.CfgPool in
+/-- the seeded defect C16-m5 (one package-level pool for writers that keep their construction level): a BestSpeed
+wrapper is handed the writer a BestCompression wrapper put back -/
+theorem shared_pool_counterexample :
+    ∃ s hd, run Model.CfgPool.init [.acquire 0 9 true false, .close 0, .acquire 0 1 true false] = some s
+      ∧ hd ∈ s.handles ∧ hd.cfg = 1 ∧ hd.obj.baked = 9 := by
+  refine ⟨_, ⟨0, 1, ⟨0, 9⟩⟩, rfl, ?_, rfl, rfl⟩
+  decide
+
+/-- extracted on every run from NewReader / NewWriter of the 4 pooled codecs: whenever a new object is constructed
+from the Codec value's options (gzip level, zstd level), the pool is a field of that Codec value, or the options
+are assigned again after Get (snappy framing / encoder): the premise `policy` of `cfg_respected` -/
+theorem gen_pool_keys :
+    Gen.CodecPools.poolFacts.length = 8 ∧
+    Gen.CodecPools.poolFacts.all (fun f => !f.2.2.1 || f.2.1 || f.2.2.2) = true := by decide
+
+open Model.LibWrapper in
+/-- gzip / lz4 / zstd wrappers (pool + Reset of a library object): GIVEN the library's Reset contract, the result of a
+stream processed through a recycled object equals the result through a new object of the same configuration, for
+every history of earlier streams (including failed ones — a failure is just a result) -/
+theorem lib_history_independent {σ ι ω : Type} (L : Lib σ ι ω) (cfgOf : σ → Nat) (h : ResetContract L cfgOf)
+    (c : Nat) (history : List ι) (i : ι) :
+    (L.run (L.reset (after L (L.fresh c) history)) i).1 = (L.run (L.fresh c) i).1 := by
+  rw [h.reset_fresh, cfg_after L cfgOf h, h.cfg_fresh]
+
+open Model.LibWrapper in
+/-- the contract is satisfiable: an object that remembers how many streams it saw but does not let it show -/
+example : ResetContract (σ := Nat × Nat) (ι := Nat) (ω := Nat)
+    ⟨fun c => (c, 0), fun s => s, fun s i => (s.1 + i, (s.1, s.2 + 1))⟩ (fun s => s.1) :=
+  ⟨fun _ => rfl, fun _ => rfl, fun _ _ => rfl, fun _ _ => rfl⟩
 
 open Model.Pool in
 /-- `Close` is idempotent: closing a wrapper again changes nothing -/
